@@ -19,7 +19,7 @@ def build(release=False):
 
 
 class Replay:
-    def __init__(self, path, timeout=5.0):
+    def __init__(self, path, timeout=3.0):
         self.path = path; self.timeout = timeout; self.pid = None; self.calls = 0; self.timeouts = 0
         self.wfd = self.rfd = None; self.owner = None
         self.start()
@@ -32,6 +32,8 @@ class Replay:
                 os.dup2(r1, 0); os.dup2(w2, 1)
                 dn = os.open(os.devnull, os.O_WRONLY); os.dup2(dn, 2)
                 os.closerange(3, 4096)
+                import resource
+                resource.setrlimit(resource.RLIMIT_AS, (3 << 30, 3 << 30))   # a runaway native run must not exhaust the machine
                 os.execv(self.path, [self.path])
             finally:
                 os._exit(127)
